@@ -24,8 +24,8 @@ import (
 	"pgregory.net/rapid"
 )
 
-var vfC07Attacks = []string{"extra-answer", "extra-additional", "authority-ns-victim", "cname-in-message", "dname-in-message", "upward-referral", "sideways-referral", "offpath-referral", "self-referral",
-	"mixed-owner-referral", "glue-out-of-zone", "glue-lookalike", "glue-unroutable", "wrong-id-first", "wrong-question-first", "wrong-question-error", "wrong-question-error", "chaos-referral", "victim-soa-negative", "ns-in-answer"}
+var vfC07Attacks = []string{"extra-answer", "extra-additional", "authority-ns-victim", "cname-in-message", "dname-in-message", "upward-referral", "sideways-referral", "offpath-referral", "offpath-deep-referral", "offpath-deep-referral", "self-referral",
+	"mixed-owner-referral", "long-chain-in-message", "glue-out-of-zone", "glue-lookalike", "glue-unroutable", "wrong-id-first", "wrong-question-first", "wrong-question-error", "wrong-question-error", "chaos-referral", "victim-soa-negative", "ns-in-answer"}
 
 type vfC07Step struct {
 	Name  string
@@ -44,6 +44,7 @@ type vfC07Case struct {
 	Glueless     bool // the victim zone is delegated to a host in another zone, without glue
 	Spoof        bool // an off-path attacker sprays forged answers (guessed transaction IDs) at the resolver whenever it asks the victim's servers
 	QMin         int
+	ChainLen     int // long-chain-in-message: alias hops that stay inside the attacker's zone before the chain leaves it
 	Steps        []vfC07Step
 }
 
@@ -92,6 +93,18 @@ func vfC07Decorate(c *vfC07Case, attack string, n int, evilIP string, req, resp 
 	case "cname-in-message":
 		resp.Rcode, resp.Ns = dns.RcodeSuccess, nil
 		resp.Answer = []dns.RR{&dns.CNAME{Hdr: dns.RR_Header{Name: q.Name, Rrtype: dns.TypeCNAME, Class: dns.ClassINET, Ttl: 3600}, Target: www}, vfC07A(www, vfC07Marker(4))}
+	case "long-chain-in-message":
+		// an alias chain that stays inside the attacker's own zone for a generated number of hops, then leaves it -
+		// with the "answer" for the foreign target, and an unrelated victim record, riding along
+		resp.Rcode, resp.Ns = dns.RcodeSuccess, nil
+		resp.Answer = nil
+		owner := q.Name
+		for h := 1; h <= c.ChainLen; h++ {
+			next := fmt.Sprintf("h%d.%s", h, vfC07Evil)
+			resp.Answer = append(resp.Answer, &dns.CNAME{Hdr: dns.RR_Header{Name: owner, Rrtype: dns.TypeCNAME, Class: dns.ClassINET, Ttl: 3600}, Target: next})
+			owner = next
+		}
+		resp.Answer = append(resp.Answer, &dns.CNAME{Hdr: dns.RR_Header{Name: owner, Rrtype: dns.TypeCNAME, Class: dns.ClassINET, Ttl: 3600}, Target: www}, vfC07A(www, vfC07Marker(9)), vfC07A(vns, vfC07Marker(10)))
 	case "dname-in-message":
 		resp.Rcode, resp.Ns = dns.RcodeSuccess, nil
 		resp.Answer = []dns.RR{&dns.CNAME{Hdr: dns.RR_Header{Name: q.Name, Rrtype: dns.TypeCNAME, Class: dns.ClassINET, Ttl: 3600}, Target: www},
@@ -108,6 +121,20 @@ func vfC07Decorate(c *vfC07Case, attack string, n int, evilIP string, req, resp 
 		if !strings.HasSuffix(strings.ToLower(q.Name), "sub."+vfC07Evil) {
 			referral(vfC07NS("sub."+vfC07Evil, "ns1.sub."+vfC07Evil))
 			resp.Extra = append([]dns.RR{vfC07A("ns1.sub."+vfC07Evil, net.ParseIP(c.W.Zones["sub."+vfC07Evil].Servers[0]).To4())}, keepOPT()...)
+		}
+	case "offpath-deep-referral":
+		// inside the attacker's bailiwick and below the zone asked, sharing a branch with the question but not on the
+		// way to it: a sibling of the question name two or more labels down, or a name below the question name. The
+		// host it names is given, in bailiwick, the address of an honest server that serves none of this
+		// (the look-alike zone's own): whatever that server is then asked about the attacker's zone came through this referral
+		labels := dns.SplitDomainName(q.Name)
+		if len(labels) >= dns.CountLabel(vfC07Evil)+2 && vfmodel.IsSubdomain(strings.ToLower(q.Name), vfC07Evil) {
+			owner := "z9." + q.Name
+			if n%2 == 0 {
+				owner = "yy7." + strings.Join(labels[1:], ".") + "."
+			}
+			referral(vfC07NS(owner, "ns."+owner))
+			resp.Extra = append([]dns.RR{vfC07A("ns."+owner, net.ParseIP(c.W.Zones["x"+vfC07Evil].Servers[0]).To4())}, keepOPT()...)
 		}
 	case "self-referral":
 		referral(vfC07NS(vfC07Evil, "ns1."+vfC07Evil))
@@ -160,6 +187,7 @@ func vfC07Decorate(c *vfC07Case, attack string, n int, evilIP string, req, resp 
 
 func vfC07Gen(rt *rapid.T) *vfC07Case {
 	c := &vfC07Case{QMin: rapid.SampledFrom([]int{0, 0, 5}).Draw(rt, "qmin")}
+	c.ChainLen = rapid.IntRange(0, 14).Draw(rt, "chainlen")
 	c.VictimSecure = rapid.IntRange(0, 4).Draw(rt, "victimsecure") == 0
 	c.Spoof = rapid.IntRange(0, 3).Draw(rt, "spoof") == 0
 	c.Evil = rapid.SampledFrom([]string{"evil.test.", "evil.test.", "evil.co.test."}).Draw(rt, "evilapex")
@@ -197,7 +225,7 @@ func vfC07Gen(rt *rapid.T) *vfC07Case {
 		c.Steps = append(c.Steps, vfC07Step{Name: "a." + vfC07Evil, Qtype: dns.TypeA}, vfC07Step{Name: "a.sub." + vfC07Evil, Qtype: dns.TypeA},
 			vfC07Step{Name: "x.sub." + vfC07Evil, Qtype: dns.TypeA, Wire: rapid.Bool().Draw(rt, "wire")})
 	}
-	evilQ := []string{"a." + vfC07Evil, "b." + vfC07Evil, "c." + vfC07Evil, "nx." + vfC07Evil, "a.sub." + vfC07Evil, "x.sub." + vfC07Evil, vfC07Evil}
+	evilQ := []string{"w.dept." + vfC07Evil, "v.w.dept." + vfC07Evil, "a." + vfC07Evil, "b." + vfC07Evil, "c." + vfC07Evil, "nx." + vfC07Evil, "a.sub." + vfC07Evil, "x.sub." + vfC07Evil, vfC07Evil}
 	victimQ := []string{"t." + c.Victim, "www." + c.Victim, "mail." + c.Victim, c.Victim, "nx." + c.Victim, "test.", "ns9.x" + vfC07Evil, "www.x" + vfC07Evil}
 	steps := rapid.IntRange(2, 7).Draw(rt, "nsteps")
 	for i := 0; i < steps; i++ {
@@ -302,6 +330,11 @@ func vfC07Run(t *testing.T, dir string, c *vfC07Case) (res vfC07Result) {
 			for _, p := range rw.Net.Log()[n0:] {
 				if evil[p.Addr] && !inEvil(p.Name) {
 					fail("step %d: the attacker's server %s was asked %s/%s, a name outside its zone", i, p.Addr, p.Name, dns.TypeToString[p.Qtype])
+				}
+				// O6: the look-alike zone's own server is nobody's delegate: it hears of the attacker's names only through
+				// the off-path referral that lent its address to a made-up host
+				if p.Addr == c.W.Zones["x"+vfC07Evil].Servers[0] && inEvil(p.Name) {
+					fail("step %d: the server %s (serving %s) was asked %s/%s: a referral to a name that is not on the way to the question was followed", i, p.Addr, "x"+vfC07Evil, p.Name, dns.TypeToString[p.Qtype])
 				}
 				// O5: an honest server is only asked about names at or below a zone it serves (a referral that is not on
 				// the way to the question sends it questions it has nothing to do with)
